@@ -14,8 +14,12 @@ def workerIds (w : Worker α) : List Nat :=
   | none => []
   | some sg => [sg.id]
 
-def resultIds (ms : List (Merge α)) : List Nat :=
-  ms.flatMap (fun m => match m.result with | none => [] | some M => [M.id])
+def mergeResultId (m : Merge α) : List Nat :=
+  match m.result with
+  | none => []
+  | some M => [M.id]
+
+def resultIds (ms : List (Merge α)) : List Nat := ms.flatMap mergeResultId
 
 /-- ids of the segments that are not (yet) in a register: under construction, finished, merged -/
 def pipeIds (s : WState α) : List Nat :=
@@ -31,12 +35,12 @@ leave alive (no result: no such document); once the sources are committed, the d
 its cursor are older than the commit -/
 def MergeGood (log : List (DelOp α)) (U C : List (Seg α)) (B : Nat) (m : Merge α) : Prop :=
   present m.ids (U ++ C) →
-    match m.result with
-    | some M => SegOK log M ∧ (∀ d ∈ M.docs, d.alive = true)
-        ∧ List.Perm (segPairs M)
-            (((srcsOf m.ids (U ++ C)).flatMap segPairs).filter (fun p => !dead (log.take M.cursor) p))
-        ∧ (present m.ids C → ∀ del ∈ log.take M.cursor, del.op < B)
-    | none => ∀ p ∈ (srcsOf m.ids (U ++ C)).flatMap segPairs, dead log p = true
+    ∃ c, c ≤ log.length ∧ (present m.ids C → ∀ del ∈ log.take c, del.op < B) ∧
+      match m.result with
+      | some M => M.cursor = c ∧ SegOK log M ∧ (∀ d ∈ M.docs, d.alive = true)
+          ∧ List.Perm (segPairs M)
+              (((srcsOf m.ids (U ++ C)).flatMap segPairs).filter (fun p => !dead (log.take c) p))
+      | none => ∀ p ∈ (srcsOf m.ids (U ++ C)).flatMap segPairs, dead (log.take c) p = true
 
 structure MInv (s : WState α) : Prop where
   nodup : (allIds s).Nodup
